@@ -184,6 +184,11 @@ def main():
                 rng = ctx.rng(pname, opname, vi)
                 optsT = S.draw_opts(rng, mA, S.Topo(mA.V, mA.E), "RWG", 0, variant=vi * 2)[0] or {}
                 optsS = S.draw_opts(rng, mB, S.Topo(mB.V, mB.E), "SNC", 0, variant=vi * 2 + (1 if vi else 0))[0] or {}
+                if opname == "electric_field":
+                    # the tested potential differs from the bilinear form by the boundary term oint (psi.nu) S(div f): the identity
+                    # presupposes test functions without normal flux through the boundary of their support (no half functions)
+                    optsS = dict(optsS, include_boundary_dofs=False)
+                    optsS.pop("truncate_at_segment_edge", None)
                 with ctx.guard(cid, "disjoint:maxwell." + opname, allow=S.ALLOWED_REJECTIONS):
                     okay = True
                     for (mm_, kk, oo) in ((mA, "RWG", optsT), (mB, "SNC", optsS)):
